@@ -301,8 +301,8 @@ pub async fn run(sc: Sc) -> Result<String, String> {
             }));
         }
     }
-    // horizon: generous (slow acceptors with 1 s delays and 27 streams)
-    let horizon = 60_000;
+    // horizon: generous (slow acceptors take 1 s per stream)
+    let horizon = 60_000 + 2_000 * sc.n as u64;
     let done = within(horizon, async {
         loop {
             settle_ms(50).await;
@@ -353,10 +353,11 @@ pub fn exec(sc: &Sc) -> Outcome {
 }
 
 pub fn scenarios(tier: Tier) -> Vec<Sc> {
-    let thorough = tier == Tier::Thorough;
+    let thorough = tier >= Tier::Thorough;
+    let deep = tier >= Tier::Deep;
     let mut out = vec![];
     let base = Sc { raw_opener: true, acceptor_server: true, n: 1, pattern: 0, strategy: Strategy::Immediate { tasks: 1 }, limit: 0, sel: vec![] };
-    let ns: Vec<usize> = vec![1, 2, 3, 5, 9];
+    let ns: Vec<usize> = if deep { vec![1, 2, 3, 4, 5, 6, 7, 8, 9, 17, 33, 60, 90] } else { vec![1, 2, 3, 5, 9] };
     for raw_opener in [true, false] {
         for acceptor_server in [true, false] {
             for pattern in 0..4u8 {
@@ -372,12 +373,20 @@ pub fn scenarios(tier: Tier) -> Vec<Sc> {
                         out.push(Sc { raw_opener, acceptor_server, n, pattern, strategy: st, ..base.clone() });
                     }
                     // cancel-and-reissue at every stream index
-                    for at in 0..n.min(if thorough { 9 } else { 5 }) {
+                    for at in 0..n.min(if deep { 33 } else if thorough { 9 } else { 5 }) {
                         for polls in 0..4usize {
                             if !thorough && (n > 5 || (raw_opener != acceptor_server && polls % 2 == 1)) {
                                 continue;
                             }
                             out.push(Sc { raw_opener, acceptor_server, n, pattern, strategy: Strategy::CancelReissue { at, polls }, ..base.clone() });
+                        }
+                    }
+                }
+                if deep {
+                    // several times a concurrent-stream limit of 2, 7 and 10
+                    for (n, limit) in [(9usize, 2u32), (30, 7), (45, 10)] {
+                        for st in [Strategy::Immediate { tasks: 1 }, Strategy::Immediate { tasks: 3 }, Strategy::Delay { ms: 10 }, Strategy::CancelAll { polls: 0 }, Strategy::CancelAll { polls: 1 }, Strategy::CancelAll { polls: 3 }] {
+                            out.push(Sc { raw_opener, acceptor_server, n, pattern, strategy: st, limit, ..base.clone() });
                         }
                     }
                 }
@@ -389,7 +398,7 @@ pub fn scenarios(tier: Tier) -> Vec<Sc> {
         }
     }
     // select! start deviations (<= 1 non-zero start among the polls after setup)
-    let polls = if thorough { 24 } else { 10 };
+    let polls = if deep { 60 } else if thorough { 24 } else { 10 };
     for raw_opener in [true, false] {
         for pattern in [2u8, 3] {
             for k in 0..polls {
@@ -398,11 +407,27 @@ pub fn scenarios(tier: Tier) -> Vec<Sc> {
                         continue;
                     }
                     out.push(Sc { raw_opener, pattern, n: 5, strategy: Strategy::CancelAll { polls: 1 }, sel: vec![(k, start)], ..base.clone() });
+                    if deep {
+                        out.push(Sc { raw_opener, pattern, n: 5, acceptor_server: false, strategy: Strategy::CancelAll { polls: 2 }, sel: vec![(k, start)], ..base.clone() });
+                        out.push(Sc { raw_opener, pattern, n: 9, strategy: Strategy::CancelReissue { at: 3, polls: 1 }, sel: vec![(k, start)], ..base.clone() });
+                    }
+                }
+            }
+            if deep {
+                // two deviations among the first 14 polls
+                for k1 in 0..14u32 {
+                    for k2 in k1 + 1..14 {
+                        for s1 in [1u32, 3, 5, 8] {
+                            for s2 in [1u32, 2, 4, 7] {
+                                out.push(Sc { raw_opener, pattern, n: 5, strategy: Strategy::CancelAll { polls: 1 }, sel: vec![(k1, s1), (k2, s2)], ..base.clone() });
+                            }
+                        }
+                    }
                 }
             }
         }
     }
-    out
+    dedup(out, |s| s.to_json().to_string())
 }
 
 pub fn run_check(args: &Args) -> i32 {
